@@ -368,6 +368,12 @@ def histories(ctx):
     app = [('append', (i,)) for i in ids]
     for seq in itertools.product(app, repeat=4):
         yield seq
+    # one extend hitting two different duplicated ids (same and different JSON types)
+    for a, b in ((0, 1), (0, 2), (1, 4), (3, 4), (0, 3)):
+        for order in ((a, b, a, b), (a, a, b, b), (a, b, b, a)):
+            yield (('extend', order),)
+            yield (('append', (a,)), ('append', (b,)), ('extend', (a, b)))
+            yield (('extend', (a, b)), ('extend', (a, b, 5)))
     rng = ctx.rng
     for _ in range(400000 if deep else 20000):
         yield tuple(rng.choice(ops) for _ in range(rng.choice((4, 4, 5))))
@@ -394,6 +400,10 @@ def gen(ctx):
         yield 'batch', {'which': which, 'idx': []}
         for length in (1, 2, 3):
             for idx in itertools.product(range(n), repeat=length):
+                yield 'batch', {'which': which, 'idx': list(idx)}
+        # four and five elements: two different valid ids each repeated (elements 0: id 1, 2: id '1', 5: id 0, 6: id '')
+        for a, b in ((0, 2), (0, 5), (5, 6), (2, 6)):
+            for idx in ((a, b, a, b), (a, a, b, b), (a, b, b, a), (a, b, 1, a, b)):
                 yield 'batch', {'which': which, 'idx': list(idx)}
     for seq in histories(ctx):
         for which in ('request', 'response'):
